@@ -164,3 +164,7 @@ def cur(x):
 
 def is_str_value(x):
     return isinstance(x, str)
+
+
+def newer(a, b):
+    return True
